@@ -122,23 +122,24 @@ Print Assumptions C07_destroy_controller_only_torn_down.
 
 (* transform.Controller over the WHOLE input and output lists and ANY mapping of inputs to outputs (many-to-one and
    partial included; TransformList.v keeps the cycle's bookkeeping keyed by output id as the code does): for every
-   schedule of runtime calls, transform faults, restarts, release orders and operations of other parties that never
+   schedule of runtime calls, transform faults, outcomes of the user's finalizer-removal hook, restarts, release orders
+   and operations of other parties that never
    make an output owned by the controller appear - whenever the controller issues RemoveFinalizer on an input, the
    output that input maps to does not exist as an output owned by the controller, before and after the release *)
 Theorem C07_transform_any_mapping_release_only_without_output :
-  forall ns tin tout cname tf mapf, tin <> tout -> forall l now fault sel x,
-  l_env_respects ns tin tout cname tf mapf (mkLS [] L0) l ->
-  let s := l_run ns tin tout cname tf mapf (mkLS [] L0) l in
+  forall ns tin tout cname tf mapf hook, tin <> tout -> forall l now fault sel x,
+  l_env_respects ns tin tout cname tf mapf hook (mkLS [] L0) l ->
+  let s := l_run ns tin tout cname tf mapf hook (mkLS [] L0) l in
   l_request ns tin tout cname tf (ls_pc s) fault sel = Some (ARemFin (ns, tin, x) [cname]) ->
   exists o, mapf x = Some o /\ ~ owned_out ns tout cname o (ls_store s) /\
-            ~ owned_out ns tout cname o (ls_store (l_step ns tin tout cname tf mapf s (LStep now fault sel))).
+            ~ owned_out ns tout cname o (ls_store (l_step ns tin tout cname tf mapf hook s (LStep now fault sel))).
 Proof. exact l_remfin_only_without_output. Qed.
 Print Assumptions C07_transform_any_mapping_release_only_without_output.
 
 (* ... and Teardown / Destroy are issued only on outputs listed as owned by the controller that are already tearing
    down or were not claimed by a running input in this cycle *)
-Theorem C07_transform_any_mapping_teardown_only_unwanted : forall ns tin tout cname tf mapf l s,
-  LTd cname s -> LTd cname (l_run ns tin tout cname tf mapf s l).
+Theorem C07_transform_any_mapping_teardown_only_unwanted : forall ns tin tout cname tf mapf hook l s,
+  LTd cname s -> LTd cname (l_run ns tin tout cname tf mapf hook s l).
 Proof. exact l_teardown_only_unwanted. Qed.
 Print Assumptions C07_transform_any_mapping_teardown_only_unwanted.
 
